@@ -9,6 +9,9 @@ CHECKS = {
  "C06": dict(cat="proof", tech="Coq proof (interpreter unfolding theorems, join-tree order by induction over free join trees, span-merge invariant) + lowering translator-validation and execution correspondence",
    text="Coq theorems over the interpreter model and the lowering model: if/else and while take exactly the branch selected by the popped value and fail with NotBinary for any other value at an if, at loop entry and after every iteration (c06_if, c06_while_entry, c06_while_iteration); the MAST built for a block sequence is a join tree whose leaves are the blocks in textual order and JOIN runs its children in order (c06_join_order, c06_join_runs_children_in_order); span merging keeps the op sequence; repeat.n contributes n copies of its body's block; exec contributes the callee's code; the locals prologue/epilogue restore fmp. The lowering model is compared with the real assembler on MAST structure and root hash for random ASTs; the interpreter with the real processor on the same programs with condition values 0,1,2,p-1 at every decision point.",
    note="Trusted: Coq kernel; hand-written models coq/Vm/Exec.v and coq/Asm/Lower.v tied to processor/src/lib.rs, decoder/mod.rs and assembler/mod.rs by the sampled correspondences; state equality of repeat/exec with their textual expansion modulo the clock is observed (Rust-vs-Rust metamorphic runs), not proved. No axioms."),
+ "C07": dict(cat="proof", tech="Coq proof (memory laws on the association-list memory, per-operation context isolation by case analysis over all 89 operations, call-frame invariant by mutual induction on fuel) + model/implementation correspondence on memory of every context",
+   text="Coq theorems: zero-initialised reads, read-after-write, writes leave every other (context,address) alone, element store changes element 0 only, no operation writes outside the current context, addresses >= 2^32 fail for single- and two-word accesses with the state unchanged; after any completed call/dyncall/syscall the caller's context id, fn hash, fmp, overflow addresses, hidden outer overflow and all stack elements below the top 16 are as before and the callee returned <= 16 elements; more than 16 on return fails; the callee starts with exactly the top 16, an empty overflow, ctx = clk+1, fmp = 2^30 (ctx 0, fmp 2^31 and the root memory for syscall); syscall outside the kernel fails before anything runs; caller yields fn_hash only inside a syscall. The model is compared with the real processor on generated nests of call/syscall/dyn/dyncall with colliding memory traffic (final stack, error, memory of every context).",
+   note="Trusted: Coq kernel; hand-written state/memory/context model (coq/Vm/State.v, Step.v, Exec.v) tied to processor/src by the sampled correspondence; locals disjointness of live frames has no theorem (exercised only). No axioms."),
  "C15": dict(cat="proof", tech="Coq proof (induction on fuel over the mutual interpreter, limit-parametric invariant) + model/implementation correspondence",
    text="Coq theorems c15_exact (same result under every limit >= the cycle count, CycleLimit after exactly m+1 clock increments below it), c15_total (no fuel exhaustion: every program stops within the limit) and c15_options over the interpreter model coq/Vm/Exec.v, proved for all programs, inputs and limits; the model is tied to processor/src by running the extracted model and the real processor on the same generated programs and limits.",
    note="Trusted: Coq kernel, extraction (ExtrOcamlBasic+ExtrOcamlZBigInt+ExtrOcamlNativeString), the exec correspondence (sampled), hand-written model of execute_code_block/advance_clock/ExecutionOptions::new. No axioms."),
